@@ -16,8 +16,8 @@ ASSUMPTIONS = ['stub network = Conv2d(kernel (H,4), stride 4) with a blank bias:
                'float32 logits compared within 1e-4; sparse entries with posterior within +-20 % of 1e-4 are not judged',
                'for truncated lines (padded batch wider than 480*batch) only order-independence and the window start are required']
 N = {'quick': 160, 'thorough': 8000}
-CLASSES = ['mixed', 'mixed', 'equal_widths', 'tiny', 'long', 'page_ocr', 'empty_or_single', 'mixed', 'extreme_logits']
-REQUIRED = ['lists', 'lines_checked', 'window_checked', 'dense_compared', 'sparse_compared', 'tight_compared', 'nologits_checked', 'permutations_checked', 'truncated_lines', 'page_ocr_lines', 'multi_batch_lists', 'extreme_logit_lists']
+CLASSES = ['mixed', 'mixed', 'equal_widths', 'tiny', 'long', 'page_ocr', 'empty_or_single', 'mixed', 'extreme_logits', 'masked_alphabet', 'embedding', 'page_ocr_many']
+REQUIRED = ['masked_alphabet_lists', 'embedding_lists', 'page_ocr_pages_over_512_lines', 'lists', 'lines_checked', 'window_checked', 'dense_compared', 'sparse_compared', 'tight_compared', 'nologits_checked', 'permutations_checked', 'truncated_lines', 'page_ocr_lines', 'multi_batch_lists', 'extreme_logit_lists']
 H = 16
 CHARS = list('abcdefgh ')
 
@@ -34,6 +34,12 @@ def setup(ctx):
     # a second stub whose logits span hundreds of units between frames (saturated white vs dark stretches): the sparse rule must still hold
     ctx.json_hot, ctx.net_hot = stubs.make_ocr_engine_dir(ctx.tmpdir + '/eng_hot', CHARS, H=H, seed=5, blank_bias=2.0, wscale=25.0)
     ctx.engines_hot = {bs: PytorchEngineLineOCR(ctx.json_hot, torch.device('cpu'), batch_size=bs) for bs in (1, 3, 8)}
+    # a model with a restricted alphabet: two symbols always get a logit of -inf (posterior 0: sparse storage must not keep anything for them)
+    ctx.json_masked, ctx.net_masked = stubs.make_ocr_engine_dir(ctx.tmpdir + '/eng_masked', CHARS, H=H, seed=7, blank_bias=2.0, wscale=1.0, masked=(1, 4))
+    ctx.engines_masked = {bs: PytorchEngineLineOCR(ctx.json_masked, torch.device('cpu'), batch_size=bs) for bs in (1, 3, 8)}
+    # a two-input model (image, embedding id); the engines live for the whole run and their embed_id is re-assigned from case to case (user_scripts/select_embed_id.py does that)
+    ctx.json_emb, ctx.net_emb = stubs.make_ocr_engine_dir(ctx.tmpdir + '/eng_emb', CHARS, H=H, seed=9, blank_bias=2.0, wscale=1.0, embed_num=4, embed_id='mean')
+    ctx.engines_emb = {bs: PytorchEngineLineOCR(ctx.json_emb, torch.device('cpu'), batch_size=bs) for bs in (1, 2, 5)}
     cfg = configparser.ConfigParser()
     cfg.read_dict({'OCR': {'OCR_JSON': ctx.json, 'USE_CPU': 'yes'}})
     ctx.page_ocr = pp.PageOCR(cfg['OCR'], torch.device('cpu'))
@@ -59,7 +65,17 @@ def gen(rng, i, ctx):
     mode = str(rng.choice(['sparse', 'sparse', 'dense', 'tight', 'tight_sparse', 'nologits']))
     if cls == 'extreme_logits':
         mode, bs = 'sparse', int(rng.choice([1, 3, 8]))
-    return {'cls': cls, 'widths': ws, 'batch_size': bs, 'mode': mode, 'pix_seed': int(rng.integers(0, 1 << 30)), 'perm_seed': int(rng.integers(0, 1 << 30))}
+    case = {'cls': cls, 'widths': ws, 'batch_size': bs, 'mode': mode, 'pix_seed': int(rng.integers(0, 1 << 30)), 'perm_seed': int(rng.integers(0, 1 << 30))}
+    if cls == 'masked_alphabet':
+        case['mode'], case['batch_size'] = str(rng.choice(['sparse', 'tight_sparse', 'dense'])), int(rng.choice([1, 3, 8]))
+    if cls == 'embedding':
+        case['batch_size'] = int(rng.choice([1, 2, 5]))
+        case['embed_id'] = int(rng.integers(0, 5))
+        case['widths'] = [int(x) for x in rng.choice([8, 40, 100, 300, 470, 900, 2000], size=int(rng.integers(1, 9)))]
+    if cls == 'page_ocr_many':
+        n = int(rng.choice([513, 600, 777, 1025, 1300]))
+        case['widths'] = [int(x) for x in rng.integers(4, 40, size=n)]
+    return case
 
 
 def describe(case):
@@ -92,6 +108,18 @@ def alone(ctx, img, net=None):
     return y
 
 
+def maxdiff(a, b):
+    """max |a - b| where equal infinities count as equal and a NaN or a one-sided infinity as an infinite difference"""
+    a, b = np.asarray(a, dtype=np.float64), np.asarray(b, dtype=np.float64)
+    if a.size == 0:
+        return 0.0
+    same = (a == b)
+    with np.errstate(invalid='ignore'):
+        d = np.where(same, 0.0, np.abs(a - b))
+    d[np.isnan(d)] = np.inf
+    return float(d.max())
+
+
 def collapse_text(lg, chars):
     am = lg.argmax(axis=1)
     out, prev = [], None
@@ -107,12 +135,21 @@ def check(case, mon, ctx):
     hot = case['cls'] == 'extreme_logits'
     eng = ctx.engines_hot[bs] if hot else ctx.engines[bs]
     net = ctx.net_hot if hot else ctx.net
+    if case['cls'] == 'masked_alphabet':
+        eng, net = ctx.engines_masked[bs], ctx.net_masked
+        mon.count('masked_alphabet_lists')
+    if case['cls'] == 'embedding':
+        eng = ctx.engines_emb[bs]
+        eng.embed_id = case['embed_id']                 # re-assigned on a long-lived engine that recognised other lists with other ids before
+        ids = ctx.torch.LongTensor([case['embed_id']])
+        net = lambda x: ctx.net_emb(x, ids)
+        mon.count('embedding_lists')
     lines = make_lines(case)
     k = len(lines)
     kw = dict(sparse_logits=(mode in ('sparse', 'tight_sparse')), tight_crop_logits=(mode in ('tight', 'tight_sparse')), no_logits=(mode == 'nologits'))
     if len(set(ws)) >= 2:
         mon.mark_nontrivial()
-    if case['cls'] == 'page_ocr':
+    if case['cls'] in ('page_ocr', 'page_ocr_many'):
         return check_page_ocr(case, lines, mon, ctx)
     with contextlib.redirect_stdout(io.StringIO()):
         try:
@@ -160,9 +197,9 @@ def check(case, mon, ctx):
             rr = ref[a:b]
             if mode == 'tight_sparse' and Lg.shape == rr.shape:
                 pp_ = np.exp(rr.astype(np.float64) - np.logaddexp.reduce(rr.astype(np.float64), axis=1)[:, None]) if rr.size else rr
-                ok_ = (np.abs(Lg[pp_ > 1.2e-4] - rr[pp_ > 1.2e-4]).max(initial=0) <= 1e-4 and not np.any(Lg[pp_ < 0.8e-4] != 0)) if rr.size else True
+                ok_ = (maxdiff(Lg[pp_ > 1.2e-4], rr[pp_ > 1.2e-4]) <= 1e-4 and not np.any(Lg[pp_ < 0.8e-4] != 0)) if rr.size else True
             else:
-                ok_ = Lg.shape == rr.shape and np.abs(Lg - rr).max(initial=0) <= 1e-4
+                ok_ = Lg.shape == rr.shape and maxdiff(Lg, rr) <= 1e-4
             if not maybe_trunc and not ok_:
                 mon.violation('logits-are-the-lines-own', dict(wit, shape=Lg.shape, expected_shape=rr.shape))
             continue
@@ -177,15 +214,15 @@ def check(case, mon, ctx):
         win, r = Lg[a:b], ref[a:b]
         if mode == 'dense':
             mon.count('dense_compared')
-            if np.abs(win - r).max(initial=0) > 1e-4:
-                mon.violation('logits-are-the-lines-own', dict(wit, max_abs_diff=float(np.abs(win - r).max(initial=0))))
+            if maxdiff(win, r) > 1e-4:
+                mon.violation('logits-are-the-lines-own', dict(wit, max_abs_diff=maxdiff(win, r)))
         else:
             mon.count('sparse_compared')
             p = np.exp(r.astype(np.float64) - np.logaddexp.reduce(r.astype(np.float64), axis=1)[:, None])
             keep, drop = p > 1.2e-4, p < 0.8e-4
-            tol = 1e-4 * max(1.0, float(np.abs(r).max(initial=0)))
-            if win.size and (np.abs(win[keep] - r[keep]).max(initial=0) > tol or np.any(win[drop] != 0)):
-                mon.violation('sparse-keeps-posteriors-above-1e-4-unchanged-and-nothing-else', dict(wit, kept_changed=float(np.abs(win[keep] - r[keep]).max(initial=0)), dropped_nonzero=int((win[drop] != 0).sum())))
+            tol = 1e-4 * max(1.0, float(np.abs(r[np.isfinite(r)]).max(initial=0)))
+            if win.size and (maxdiff(win[keep], r[keep]) > tol or np.any(win[drop] != 0)):
+                mon.violation('sparse-keeps-posteriors-above-1e-4-unchanged-and-nothing-else', dict(wit, kept_changed=maxdiff(win[keep], r[keep]), dropped_nonzero=int((win[drop] != 0).sum())))
     # order independence: reversed and shuffled lists give the same result for the same image
     if k >= 2:
         rng = np.random.default_rng(case['perm_seed'])
@@ -199,7 +236,7 @@ def check(case, mon, ctx):
                     A = lg[j].toarray() if mode in ('sparse', 'tight_sparse') else np.asarray(lg[j])
                     B = lg2[pos].toarray() if mode in ('sparse', 'tight_sparse') else np.asarray(lg2[pos])
                     a, b = (0, min(A.shape[0], B.shape[0])) if mode in ('tight', 'tight_sparse') else (co[j][0], min(co[j][1], A.shape[0], B.shape[0]))
-                    same = A.shape[1] == B.shape[1] and (np.abs(A[a:b] - B[a:b]).max(initial=0) <= 1e-4)
+                    same = A.shape[1] == B.shape[1] and (maxdiff(A[a:b], B[a:b]) <= 1e-4)
                 if not same:
                     mon.violation('independent-of-list-order', {'image': j, 'position_in_permuted_list': pos, 'width': ws[j], 'batch_size': bs, 'mode': mode,
                                   'text': [tr[j], tr2[pos]], 'coords': [co[j], co2[pos]]})
@@ -216,6 +253,8 @@ def check_page_ocr(case, lines, mon, ctx):
     with contextlib.redirect_stdout(io.StringIO()):
         ctx.page_ocr.process_page(None, pl)
     eng = ctx.page_ocr.ocr_engine
+    if len(lines) > 512:
+        mon.count('page_ocr_pages_over_512_lines')
     for line in pl.lines_iterator():
         mon.count('page_ocr_lines')
         i = int(line.id[1:])
@@ -224,7 +263,10 @@ def check_page_ocr(case, lines, mon, ctx):
         exp_text = collapse_text(ref, eng.characters)
         if w + 64 + 32 <= 480 * 8:
             a, b = 8, (32 + w) // 4
-            wit = {'line': line.id, 'width': w}
+            wit = {'line': line.id, 'width': w, 'lines_on_page': len(lines)}
+            if line.logits is None or line.logit_coords is None or line.transcription is None:
+                mon.violation('one-result-per-input-position', dict(wit, via='PageOCR', note='the line was left without a result', transcription=line.transcription))
+                continue
             if line.transcription != exp_text:
                 mon.violation('transcription-is-the-lines-own', dict(wit, via='PageOCR', got=line.transcription, expected=exp_text))
             if list(line.logit_coords) != [a, b]:
